@@ -199,6 +199,28 @@ int main (int argc, char **argv)
           for (int i = 0; i < k; i++) free (lines[i]);
           free (lines);
         }
+      else if (!strcmp (tok[0], "MTD") && n >= 4)
+        {
+          /* MTD <nthreads> <k> <rep>: the next nthreads*k lines are k lines for each thread (DIFFERENT requests per thread); every thread's
+             lines are first executed alone, <rep> times over, then all threads run concurrently; each transcript must equal the one obtained alone:
+             shared state outside the caller's objects (also inside libc, which ThreadSanitizer does not instrument) shows as a difference */
+          int nt = atoi (tok[1]), k = atoi (tok[2]), rep = atoi (tok[3]);
+          char **lines = calloc ((size_t)nt * (size_t)k * (size_t)rep, sizeof *lines);
+          for (int t = 0; t < nt; t++)
+            for (int i = 0; i < k; i++)
+              { char *l = NULL; size_t c = 0; if (getline (&l, &c, stdin) <= 0) l = strdup ("");
+                for (int r = 0; r < rep; r++) lines[((size_t)t * (size_t)rep + (size_t)r) * (size_t)k + (size_t)i] = l; }
+          struct mtjob *ref = calloc ((size_t)nt, sizeof *ref), *jobs = calloc ((size_t)nt, sizeof *jobs); pthread_t *th = calloc ((size_t)nt, sizeof *th);
+          for (int t = 0; t < nt; t++) { ref[t].lines = lines + (size_t)t * (size_t)rep * (size_t)k; ref[t].k = k * rep; mt_thread (&ref[t]); }
+          for (int t = 0; t < nt; t++) { jobs[t].lines = ref[t].lines; jobs[t].k = k * rep; pthread_create (&th[t], NULL, mt_thread, &jobs[t]); }
+          int equal = 1, dt = -1;
+          for (int t = 0; t < nt; t++) { pthread_join (th[t], NULL);
+            if (jobs[t].tlen != ref[t].tlen || memcmp (jobs[t].transcript, ref[t].transcript, ref[t].tlen)) { if (equal) dt = t; equal = 0; } }
+          printf ("mt threads=%d ops=%d equal=%d firstdiff=%d\n", nt, k * rep, equal, dt);
+          for (int t = 0; t < nt; t++) { free (jobs[t].transcript); free (ref[t].transcript); }
+          for (int t = 0; t < nt; t++) for (int i = 0; i < k; i++) free (lines[(size_t)t * (size_t)rep * (size_t)k + (size_t)i]);
+          free (lines); free (ref); free (jobs); free (th);
+        }
       else dispatch (n, tok);
       free (copy);
     }
